@@ -9,6 +9,7 @@ pub fn run_case(case: &Case, cx: &mut Ctx) {
         Engine::MapHist => mmv_maphist::run_dyn(case, cx),
         Engine::SetHist => mmv_sethist::run_dyn(case, cx),
         Engine::SetAlg | Engine::MapEq => mmv_pairs::run_dyn(case, cx),
+        Engine::Wide => mmv_maphist::wide::run(case, cx),
         _ => {}
     }
 }
